@@ -3,9 +3,10 @@ CONSTANTS
   Keys <- MCKeys31
   Splits <- MCSplits3
   Width <- MCWidth3
-  Limits = {0, 1, 2, 3}
+  Limits = {1, 2, 3}
   Markers <- MCMarkers31Small
   Export = FALSE
+  CallerReverses = FALSE
 INVARIANTS TypeOK ColumnsDuring RowsIdxUnique CountBound MarkerIsKey
-  FinalAligned FinalUnique FinalOrdered FinalWindow FinalLimit FinalFirst FinalHasMore
+  FinalAligned FinalUnique FinalOrdered FinalWindow FinalLimit FinalFirst FinalHasMore FinalIsSpecOut
 CHECK_DEADLOCK FALSE
